@@ -506,6 +506,38 @@ func TestVerifC07Controller(t *testing.T) {
 		return &c07Fwd{up: id, fallback: fb}, nil // identity bound NOW, not when called
 	}
 
+	// the production UDP path (Handle_ with a nil response writer, replies re-injected with sendPkt from the
+	// client's destination): pooled "any-from" sockets registered for 9.9.9.<d>:53 are really bound to
+	// loopback, the client is a loopback socket.
+	oldPool := DefaultAnyfromPool
+	DefaultAnyfromPool = &AnyfromPool{}
+	for i := range DefaultAnyfromPool.shards {
+		DefaultAnyfromPool.shards[i].pool = make(map[netip.AddrPort]*Anyfrom, 4)
+	}
+	defer func() { DefaultAnyfromPool = oldPool }()
+	listen := func() *net.UDPConn {
+		c, err := net.ListenUDP("udp4", &net.UDPAddr{IP: net.IPv4(127, 0, 0, 1), Port: 0})
+		if err != nil {
+			t.Fatalf("loopback socket: %v", err)
+		}
+		return c
+	}
+	clientConn, listenerConn := listen(), listen()
+	defer clientConn.Close()
+	defer listenerConn.Close()
+	for d := 1; d <= 2; d++ {
+		rc := listen()
+		defer rc.Close()
+		af := &Anyfrom{UDPConn: rc, ttl: AnyfromTimeout}
+		af.RefreshTtl()
+		addr := netip.MustParseAddrPort(fmt.Sprintf("9.9.9.%d:53", d))
+		shard := DefaultAnyfromPool.shardFor(addr)
+		shard.mu.Lock()
+		shard.pool[addr] = af
+		shard.mu.Unlock()
+	}
+	clientAddr := clientConn.LocalAddr().(*net.UDPAddr).AddrPort()
+
 	nCfg, perCfg, maxRules := 300, 12, 5
 	if VThorough() {
 		nCfg, perCfg, maxRules = 4000, 16, 8
@@ -686,6 +718,11 @@ func TestVerifC07Controller(t *testing.T) {
 				routingResult: &bpfRoutingResult{},
 			}
 			w := &c07Writer{}
+			nilWriter := !noq && r.Chance(0.1) // Handle_ as udp.go calls it: no response writer, reply sent as a packet
+			if nilWriter {
+				req.realSrc, req.src, req.lConn = clientAddr, clientAddr, listenerConn
+				stats.Inc("ask.nil-writer-udp-path")
+			}
 			hq := "q"
 			if noq {
 				hq = "noq"
@@ -695,7 +732,23 @@ func TestVerifC07Controller(t *testing.T) {
 			out := VRecover(func() string {
 				ctx, cancel := context.WithTimeout(context.Background(), 5*time.Second)
 				defer cancel()
-				err := ctrl.HandleWithResponseWriter_(ctx, msg, req, w)
+				var err error
+				if nilWriter {
+					err = ctrl.Handle_(ctx, msg, req)
+					if err == nil {
+						// the reply packet was written to the loopback socket before Handle_ returned
+						buf := make([]byte, 65535)
+						_ = clientConn.SetReadDeadline(time.Now().Add(20 * time.Second))
+						if n, _, rerr := clientConn.ReadFromUDPAddrPort(buf); rerr == nil {
+							var m dnsmessage.Msg
+							if m.Unpack(buf[:n]) == nil {
+								w.msg = &m
+							}
+						}
+					}
+				} else {
+					err = ctrl.HandleWithResponseWriter_(ctx, msg, req, w)
+				}
 				cur.mu.Lock()
 				trace := strings.Join(cur.trace, ",")
 				stats.Inc(fmt.Sprintf("ask.upstream-queries.%d", len(cur.trace)))
